@@ -43,6 +43,21 @@ fn calc_gain(n_frames: f32) -> f32 {
     }
 }
 
+/// Verification hooks (guard: `--cfg rustaudio_dasp_verif`): read-only access to the private state.
+#[cfg(rustaudio_dasp_verif)]
+impl<F, D> Detector<F, D>
+where
+    F: Frame,
+    D: Detect<F>,
+{
+    pub fn verif_gains(&self) -> (f32, f32) {
+        (self.attack_gain, self.release_gain)
+    }
+    pub fn verif_last_env(&self) -> D::Output {
+        self.last_env_frame
+    }
+}
+
 impl<F, D> Detector<F, D>
 where
     F: Frame,
